@@ -18,6 +18,16 @@ LAST_INFO = None
 MASK = int(sl("mask", 1))  # bit0 input, bit1 dialog, bit2 retrieval, bit3 output
 FORM = sl("form", "list")
 N = int(sl("n", 1))
+FIX = sl("fix", {})
+
+
+def _fixed(**kw):
+    for k, v in kw.items():
+        if k in FIX and v != FIX[k]:
+            return False
+    return True
+
+
 I_ON, D_ON, R_ON, O_ON = bool(MASK & 1), bool(MASK & 2), bool(MASK & 4), bool(MASK & 8)
 
 
@@ -179,6 +189,7 @@ def selected(a0: int, a1: int, b0: int, b1: int) -> bool:
     log.activated_rails lists exactly the rails that ran, in order, with stop on exactly the blocking one.
     pre: 0 <= a0 <= 2 and 0 <= a1 <= 2 and 0 <= b0 <= 2 and 0 <= b1 <= 2
     pre: N > 1 or (a1 == 0 and b1 == 0)
+    pre: _fixed(a0=a0, b0=b0)
     post: _
     """
     global LAST_INFO
@@ -199,6 +210,7 @@ def selected_second_call(a0: int, a1: int, b0: int, b1: int) -> bool:
     re-sends that history plus a new message with the slice's options (the events cache must not let the earlier, option-free turn decide which rails run).
     pre: 0 <= a0 <= 2 and 0 <= a1 <= 2 and 0 <= b0 <= 2 and 0 <= b1 <= 2
     pre: N > 1 or (a1 == 0 and b1 == 0)
+    pre: _fixed(a0=a0, b0=b0)
     post: _
     """
     global LAST_INFO
@@ -230,6 +242,7 @@ def selected_after_blocked_call(a0: int, a1: int, b0: int, b1: int) -> bool:
     input rail (a predefined refusal was produced while the output rails were disabled).
     pre: 0 <= a0 <= 2 and 0 <= a1 <= 2 and 0 <= b0 <= 2 and 0 <= b1 <= 2
     pre: N > 1 or (a1 == 0 and b1 == 0)
+    pre: _fixed(a0=a0, b0=b0)
     post: _
     """
     global LAST_INFO
@@ -283,13 +296,16 @@ SPEC = {
                    "dialog off -> the supplied message (output on) or the user text (output off); output rails (if enabled) over the bot text. Observed action/LLM call sequence, reply and "
                    "log.activated_rails (input/output entries, order, stop flag) must equal the reference.",
     "conditions": [
-        {"fn": "selected", "tiers": ("quick",), "slices": [{"mask": m, "form": ("list" if m % 2 else "dict"), "n": 1} for m in range(1, 16)], "tcond": 900, "tpath": 120, "bound": "15 subsets, 1 rail per category",
+        {"fn": "selected_after_blocked_call", "tiers": ("quick",), "slices": [{"mask": m, "form": "list", "n": 1, "fix": {"a0": a}} for m in (15, 9) for a in (0, 1, 2)], "tcond": 900, "tpath": 180,
+         "bound": "call continuing a blocked input-only call through `state`, 2 subsets",
+         "smoke": [{"slice": {"mask": 9, "form": "list", "n": 1}, "args": dict(a0=0, a1=0, b0=1, b1=0)}]},
+        {"fn": "selected_second_call", "tiers": ("quick",), "slices": [{"mask": 9, "form": "list", "n": 1, "fix": {"a0": a}} for a in (0, 1, 2)] + [{"mask": 1, "form": "list", "n": 1}], "tcond": 900, "tpath": 180,
+         "bound": "second call on one instance, 2 subsets",
+         "smoke": [{"slice": {"mask": 1, "form": "list", "n": 1}, "args": dict(a0=2, a1=0, b0=0, b1=0)}]},
+        {"fn": "selected", "tiers": ("quick",), "slices": [{"mask": m, "form": "list", "n": 1, "fix": {"a0": a}} for m in (15, 11, 13, 9) for a in (0, 1, 2)]
+            + [{"mask": m, "form": ("list" if m % 2 else "dict"), "n": 1} for m in (14, 10, 12, 8, 7, 5, 3, 1, 6, 4, 2)], "tcond": 900, "tpath": 120, "bound": "15 subsets, 1 rail per category",
          "smoke": [{"slice": {"mask": 15, "form": "dict", "n": 2}, "args": dict(a0=2, a1=0, b0=0, b1=1)}, {"slice": {"mask": 9, "form": "list", "n": 2}, "args": dict(a0=0, a1=2, b0=2, b1=2)},
                    {"slice": {"mask": 1, "form": "list", "n": 1}, "args": dict(a0=1, a1=0, b0=0, b1=0)}]},
-        {"fn": "selected_second_call", "tiers": ("quick",), "slices": [{"mask": m, "form": "list", "n": 1} for m in (1, 8, 9, 11)], "tcond": 900, "tpath": 180, "bound": "second call on one instance, 4 subsets",
-         "smoke": [{"slice": {"mask": 1, "form": "list", "n": 1}, "args": dict(a0=2, a1=0, b0=0, b1=0)}]},
-        {"fn": "selected_after_blocked_call", "tiers": ("quick",), "slices": [{"mask": m, "form": "list", "n": 1} for m in (9, 8, 15)], "tcond": 900, "tpath": 180, "bound": "call continuing a blocked input-only call through `state`, 3 subsets",
-         "smoke": [{"slice": {"mask": 9, "form": "list", "n": 1}, "args": dict(a0=0, a1=0, b0=1, b1=0)}]},
         {"fn": "selected_after_blocked_call", "tiers": ("thorough",), "slices": [{"mask": m, "form": "dict", "n": 1} for m in range(1, 16)], "tcond": 1800, "tpath": 180, "bound": "all subsets"},
         {"fn": "selected_second_call", "tiers": ("thorough",), "slices": [{"mask": m, "form": "dict", "n": 1} for m in range(1, 16)], "tcond": 1800, "tpath": 180, "bound": "second call on one instance, all subsets"},
         {"fn": "selected", "tiers": ("thorough",), "slices": [{"mask": m, "form": f, "n": 2} for m in range(1, 16) for f in ("list", "dict")], "tcond": 3000, "tpath": 180, "bound": "15 subsets x 2 forms, 2 rails per category"},
